@@ -1993,12 +1993,29 @@ class Executor:
             pct = resolve_method(parent, name) if parent else None
             if pct is None:
                 raise Unsupported(f"super().{name}: no contract in the parents of {own}")
+            from . import run as _run
+
+            owner = pct.qual.split(":")[1].split("#")[0].rsplit(".", 1)[0]
+            cc = parent
+            while cc and cc != owner:
+                if f"{cc}.{name}" in _run.module_info(CLASS_MODULE[cc]).funcs:
+                    raise Unsupported(f"super().{name}: {cc}.{name} has no contract")
+                cc = CLASS_PARENTS.get(cc)
             return self.call_contract(pct, [f.bound] + args, kwargs, node)
         # 2c. Cls(...): a new object of that class, initialised by the contract of its (possibly inherited) __init__
         cname = q.split(":")[1] if ":" in q else None
         if cname and "." not in cname and cname in CLASS_MODULE and f"{CLASS_MODULE[cname]}:{cname}" == q and C.get(q) is None:
             ict = resolve_method(cname, "__init__")
             if ict is not None:
+                # the contract found may belong to a parent class: only right if no class in between defines its own __init__
+                from . import run as _run
+
+                owner = ict.qual.split(":")[1].split("#")[0].rsplit(".", 1)[0]
+                cc = cname
+                while cc and cc != owner:
+                    if f"{cc}.__init__" in _run.module_info(CLASS_MODULE[cc]).funcs:
+                        raise Unsupported(f"constructor of {cname}: {cc}.__init__ has no contract")
+                    cc = CLASS_PARENTS.get(cc)
                 selfT = list(ict.params.values())[0]
                 if not isinstance(selfT, TObj):
                     raise Unsupported(f"constructor of {cname}: __init__ contract without an object type")
